@@ -171,3 +171,75 @@ def insideOf (parents : List Nat) : Nat → Nat → Nat → Bool
   | fuel + 1, v, u => if v = 0 then false else if v = u then true else insideOf parents fuel (parents.getD (v - 1) 0) u
 
 end Comdex.Hooks
+
+namespace Comdex.Hooks
+
+/-! ## Per-item loops: every item under its own wrapper, or ONE wrapper around the whole loop
+
+`x/liquidity/abci.go:18-27` is `for _, app := range allApps { _ = ApplyFuncIfNoError(ctx, func … app.Id …) }`: the
+item loop is OUTSIDE the wrapper, `runUnits`. Swapping the two lines gives `ApplyFuncIfNoError(ctx, func … { for … })`:
+all items run on one cache context (`seqAll`) and are committed or dropped together (`runAsOne`). -/
+
+/-- the steps one after the other on ONE context, stopping at the first failure -/
+def seqAll {σ : Type} : List (σ → Except Fail σ) → σ → Except Fail σ
+  | [], s => .ok s
+  | f :: fs, s =>
+    match f s with
+    | .ok s' => seqAll fs s'
+    | .error e => .error e
+
+/-- one wrapper around the whole loop -/
+def runAsOne {σ : Type} (us : List (σ → Except Fail σ)) (s : σ) : σ × Bool := applyIfNoError (seqAll us) s
+
+/-- item number `i` in the abstract: it appends its number to the log of processed items, or fails (`ok = false`:
+poisoned state, injected fault) -/
+def itemUnit (ok : Bool) (i : Nat) : List Nat → Except Fail (List Nat) :=
+  fun s => if ok then .ok (s ++ [i]) else .error .err
+
+/-- the items numbered `i, i+1, …` with the given outcomes -/
+def itemUnits : List Bool → Nat → List (List Nat → Except Fail (List Nat))
+  | [], _ => []
+  | ok :: rest, i => itemUnit ok i :: itemUnits rest (i + 1)
+
+/-- the numbers of the items that do not fail -/
+def okItems : List Bool → Nat → List Nat
+  | [], _ => []
+  | ok :: rest, i => if ok then i :: okItems rest (i + 1) else okItems rest (i + 1)
+
+end Comdex.Hooks
+
+namespace Comdex.Hooks
+
+/-! ## The surplus kick-off of the second generation (`x/liquidationsV2/keeper/liquidate.go:450-521`) — UNWRAPPED
+
+`LiquidateForSurplusAndDebt` ranges over the auction-mapping entries on the live context and returns at the first error
+(`runUnwrappedLoop`). For a due entry `CheckStatsForSurplusAndDebt` first calls `collector.GetAmountFromCollector`, which
+MOVES the lot to the first-generation auction module account and lowers the net-fee record
+(`x/collector/keeper/collector.go:28-32`), and only then `CreateLockedVault`, whose first test is whether English auctions
+are activated for the app (`liquidate.go:210-215`). -/
+
+structure Kick where
+  collector : Int      -- coins of the collector asset in the collector module account
+  parked : Int         -- … in the first-generation auction module account
+  netFees : Int        -- the collector's net-fee record of the entry
+  lockedVaults : Nat
+  auctions : Nat
+  active : Bool        -- the entry's `IsAuctionActive`
+deriving DecidableEq, Repr
+
+/-- one due entry, as the code runs it -/
+def surplusKickRaw (lot : Int) (english : Bool) : Raw Kick := fun s =>
+  let s1 := { s with collector := s.collector - lot, parked := s.parked + lot, netFees := s.netFees - lot }
+  if !english then (s1, some .err)
+  else ({ s1 with lockedVaults := s1.lockedVaults + 1, auctions := s1.auctions + 1, active := true }, none)
+
+/-- is the entry due? (`liquidate.go:437-441, 503`) -/
+def kickDue (s : Kick) (threshold lot : Int) : Bool := !s.active && decide (s.netFees ≥ threshold + lot)
+
+/-- `n` consecutive blocks of one entry whose app cannot start an English auction -/
+def kickBlocks (threshold lot : Int) : Nat → Kick → Kick
+  | 0, s => s
+  | n + 1, s => kickBlocks threshold lot n (if kickDue s threshold lot then (surplusKickRaw lot false s).1 else s)
+
+end Comdex.Hooks
+
